@@ -15,7 +15,9 @@ A Python `str` is a `List Char` here (`Str`); a *token* is one element of `line.
 * `toAsciiToks` / `toAscii` — `Source.to_ascii`: `"{0:30s} {1:9.5f} {2:9.5f} "`, then `"{0:1d} "` per flag, then
   `"{0:11.3e} {1:11.3e} "` per band (`for j in range(n_wav)` indexing `flux[j]`, `error[j]`: `none` = `IndexError`).
 * numbers are abstract in `fromAsciiToks`/`toAsciiToks` (`parse : Str → Option K`, `fmtF fmtE : K → Str`);
-  the executable instances used by the driver are `parseNum` (plain decimal literals
+  the driver instantiates `K := XNum`, `parse := parsePy` (Python's `float()` grammar: `parseNum` plus PEP 515
+  underscores plus `inf`/`infinity`/`nan`; `C20_parsePy_extends` shows it agrees with `parseNum` on every
+  literal without underscores); the executable instances are `parseNum` (plain decimal literals
   `[sign] digits [. digits] [e [sign] digits]`, the subset of Python's `float()` grammar without `_`, `inf`, `nan`,
   non-ASCII digits), `fmtE3` (`%.3e`: exact rational in, correctly rounded, ties to even — Python formats the
   exact binary value of the double) and `fmtF5` (`%.5f`), split into a numeric core (`roundE3`, `roundF5` : a
@@ -115,11 +117,38 @@ def parseSign : List Char → Bool × List Char
   | '+' :: r => (false, r)
   | cs => (false, cs)
 
-/-- `int(str)` on `[sign] digits` -/
-def parseInt (s : Str) : Option Int :=
+/-- `[sign] digits` (leading zeros allowed, as in `int('01')`) -/
+def parseIntPlain (s : Str) : Option Int :=
   let (neg, r) := parseSign s
   let (v, cnt, rest) := scanDigits r 0 0
   if cnt = 0 ∨ rest ≠ [] then none else some (if neg then -(v : Int) else (v : Int))
+
+def isDigit (c : Char) : Bool := (digitVal c).isSome
+
+/-- PEP 515: `int()` and `float()` accept single underscores *between two digits* (`'1_0'` is ten);
+    `prev` = the previous character was a digit.  `none` = a misplaced underscore (`ValueError`). -/
+def stripUsAux : Bool → List Char → Option (List Char)
+  | _, [] => some []
+  | prev, c :: r =>
+    if c = '_' then
+      if prev then
+        match r with
+        | d :: _ => if isDigit d then stripUsAux false r else none
+        | [] => none
+      else none
+    else
+      match stripUsAux (isDigit c) r with
+      | none => none
+      | some t => some (c :: t)
+
+def stripUs (s : Str) : Option Str := stripUsAux false s
+
+/-- `int(str)` as `np.array(strs, dtype=int)` applies it to one token: `[sign] digits`, digits possibly
+    grouped by single underscores (non-ASCII digits, which Python also accepts, are not modelled) -/
+def parseInt (s : Str) : Option Int :=
+  match stripUs s with
+  | none => none
+  | some t => parseIntPlain t
 
 /-- the `w` least significant decimal digits of `n`, most significant first -/
 def digitsW : Nat → Nat → List Char
@@ -302,6 +331,33 @@ def parseNum (cs : Str) : Option Rat :=
     | some e =>
       let v := (m : Rat) * pow10 (e - fc)
       some (if neg then -v else v)
+
+/-- what `float(str)` can return: a finite value (exact rational here), an infinity or NaN -/
+inductive XNum where
+  | fin (q : Rat)
+  | pinf
+  | ninf
+  | nan
+  deriving DecidableEq, Repr
+
+def lowerAscii (c : Char) : Char :=
+  if 65 ≤ c.toNat ∧ c.toNat ≤ 90 then Char.ofNat (c.toNat + 32) else c
+
+/-- `float(str)` / `np.float64(str)` / `np.array(strs, dtype=float)` on one token: a decimal literal
+    (`parseNum`, digits possibly grouped by single underscores), else `[sign] inf | infinity | nan` in any
+    letter case.  Not modelled: non-ASCII digits; overflow to `inf` / underflow to `0` of huge exponents. -/
+def parsePy (s : Str) : Option XNum :=
+  match (match stripUs s with
+         | none => none
+         | some t => parseNum t) with
+  | some q => some (.fin q)
+  | none =>
+    let (neg, r) := parseSign s
+    let l := r.map lowerAscii
+    if l = ['i', 'n', 'f'] ∨ l = ['i', 'n', 'f', 'i', 'n', 'i', 't', 'y'] then
+      some (if neg then .ninf else .pinf)
+    else if l = ['n', 'a', 'n'] then some .nan
+    else none
 
 /-- `a / b` rounded to the nearest natural, ties to even -/
 def roundHEdiv (a b : Nat) : Nat :=
